@@ -140,6 +140,12 @@ def renderArgs (env : Env) : List Expr → List Char
   | a :: b :: rest => renderA1 env a ++ ',' :: renderArgs env (b :: rest)
 end
 
+/-- the extern-sheet table as `xlsb read_workbook` resolves BrtExternSheet: one name per XTI entry -/
+def resolveExtern (sheets : List (List Char)) (xtis : List Int) : List (List Char) :=
+  xtis.map fun it =>
+    if it = -2 then "#ThisWorkbook".toList else if it = -1 then "#InvalidWorkSheet".toList
+    else if 0 ≤ it then (sheets[it.toNat]?).getD "#Unknown".toList else "#Unknown".toList
+
 /-! ### reverse-Polish token list -/
 
 mutual
